@@ -41,7 +41,7 @@ META = {
                      'harness/impl/core_rt.py prints real objects as Gallina terms and as the canonical text compared with the model'],
     'assumptions': ['stdlib leaf functions (isoformat, UUID.hex, str(Decimal/Path/timedelta), timestamp, b64encode) are oracles: their '
                     'answers are carried in the value tokens',
-                    'the first "+00:00" of an isoformat() text is its suffix (z_safe) - violated only by sub-minute UTC offsets (finding F22)'],
+                    'the first "+00:00" of an isoformat() text is its suffix (z_safe) - violated only by sub-minute UTC offsets (finding F43)'],
 }
 
 XF = {None: 'XCamel', 'CAMEL': 'XCamel', 'PASCAL': 'XPascal', 'LISP': 'XLisp', 'SNAKE': 'XSnake', 'NONE': 'XNone'}
@@ -62,7 +62,7 @@ def coq_cfg(cfg):
 
 
 def subminute(v):
-    """F22 region: a datetime/time value whose UTC offset is +00:00:SS."""
+    """F43 region: a datetime/time value whose UTC offset is +00:00:SS."""
     if isinstance(v, dict):
         if v.get('v') == 'tok' and v.get('k') in ('datetime', 'time'):
             tz = v['x'][-1]
@@ -209,16 +209,16 @@ def run(ctx):
         bad = check_direct(c, res)
         in_f22 = subminute(c['value'])
         if bad:
-            if in_f22 and ctx.is_open_region('F22-z-rewrite-subminute-offset') and bad == ['asdict(x) differs from the documented encoding']:
-                ctx.hist('known_region', 'F22-z-rewrite-subminute-offset')
+            if in_f22 and ctx.is_open_region('F43-z-rewrite-subminute-offset') and bad == ['asdict(x) differs from the documented encoding']:
+                ctx.hist('known_region', 'F43-z-rewrite-subminute-offset')
             else:
                 ctx.violation('C03 direct predicate fails: %s' % '; '.join(bad), {'kind': 'case', 'case': strip(c)})
         if i in model:
             ctx.traces_validated += 1
-            if in_f22 and 'F22-z-rewrite-subminute-offset' in resolved:
+            if in_f22 and 'F43-z-rewrite-subminute-offset' in resolved:
                 # the model is faithful to the listed defect; once the implementation is repaired the
                 # region is checked by the direct predicate only (FINDING-RESOLVED is printed)
-                ctx.hist('model_skipped', 'F22 region, finding resolved')
+                ctx.hist('model_skipped', 'F43 region, finding resolved')
             elif 'show_dump' in res and model[i] != res['show_dump']:
                 n_dis += 1
                 ctx.disagreements_checked += 1
